@@ -79,11 +79,11 @@ pub fn drive(t: &mut Tracer, tier: &str, seed: u64) {
     let mutate = |v: &[u8], i: usize, rng: &mut Rng| { let mut c = v.to_vec(); c[i] ^= 1 << (rng.below(8)); c };
     for i in (0..spki.len()).step_by(step) {
         { let d = spki[..i].to_vec(); call(t, &mut n, "sm2.spki_der", "truncated", i, move || e(Sm2PublicKey::from_public_key_der(&d))); }
-        { let d = mutate(&spki, i, &mut rng); let l = d.len(); call(t, &mut n, "sm2.spki_der", "corrupted", l, move || e(Sm2PublicKey::from_public_key_der(&d))); }
+        for v in [0x00u8, 0x01, 0x7f, 0x80, 0xff, spki[i] ^ (1 << rng.below(8))] { if v == spki[i] { continue; } let mut d = spki.clone(); d[i] = v; let l = d.len(); call(t, &mut n, "sm2.spki_der", "corrupted", l, move || e(Sm2PublicKey::from_public_key_der(&d))); }
     }
     for i in (0..p8.len()).step_by(step) {
         { let d = p8[..i].to_vec(); call(t, &mut n, "sm2.pkcs8_der", "truncated", i, move || e(Sm2PrivateKey::from_pkcs8_der(&d))); }
-        { let d = mutate(&p8, i, &mut rng); let l = d.len(); call(t, &mut n, "sm2.pkcs8_der", "corrupted", l, move || e(Sm2PrivateKey::from_pkcs8_der(&d))); }
+        for v in [0x00u8, 0x01, 0x7f, 0x80, 0xff, p8[i] ^ (1 << rng.below(8))] { if v == p8[i] { continue; } let mut d = p8.clone(); d[i] = v; let l = d.len(); call(t, &mut n, "sm2.pkcs8_der", "corrupted", l, move || e(Sm2PrivateKey::from_pkcs8_der(&d))); }
     }
     for i in (0..spki_pem.len()).step_by(step * 2) {
         { let s = spki_pem[..i].to_string(); call(t, &mut n, "sm2.spki_pem", "truncated", i, move || e(Sm2PublicKey::from_public_key_pem(&s))); }
@@ -96,9 +96,31 @@ pub fn drive(t: &mut Tracer, tier: &str, seed: u64) {
     for i in (0..ct.len()).step_by(step) {
         { let (s, d) = (key.sk.clone(), mutate(&ct, i, &mut rng)); let l = d.len(); call(t, &mut n, "sm2.decrypt.uncomp", "corrupted", l, move || e(s.decrypt(&d, false, Sm2Model::C1C3C2))); }
     }
-    for i in (0..der.len()).step_by(step) {
+    // DER ciphertexts are short: every byte position, truncation and a boundary set of replacement values (not only one bit flip)
+    for i in 0..der.len() {
         { let (s, d) = (key.sk.clone(), der[..i].to_vec()); call(t, &mut n, "sm2.decrypt_asn1", "truncated", i, move || e(s.decrypt_asn1(&d, false, Sm2Model::C1C3C2))); }
-        { let (s, d) = (key.sk.clone(), mutate(&der, i, &mut rng)); let l = d.len(); call(t, &mut n, "sm2.decrypt_asn1", "corrupted", l, move || e(s.decrypt_asn1(&d, false, Sm2Model::C1C3C2))); }
+        for v in [0x00u8, 0x01, 0x7f, 0x80, 0xff, der[i] ^ 1, der[i].wrapping_add(1)] {
+            if v == der[i] { continue; }
+            let (s, mut d) = (key.sk.clone(), der.clone()); d[i] = v; let l = d.len();
+            call(t, &mut n, "sm2.decrypt_asn1", "corrupted", l, move || e(s.decrypt_asn1(&d, false, Sm2Model::C1C3C2)));
+        }
+    }
+    // structure-aware DER: SEQUENCE { INTEGER x, INTEGER y, OCTET STRING hash, OCTET STRING ct } with INTEGER / OCTET STRING sizes around the limits
+    let tlv = |tag: u8, v: &[u8]| -> Vec<u8> { let mut o = vec![tag]; if v.len() < 128 { o.push(v.len() as u8); } else if v.len() < 256 { o.push(0x81); o.push(v.len() as u8); } else { o.push(0x82); o.push((v.len() >> 8) as u8); o.push(v.len() as u8); } o.extend_from_slice(v); o };
+    for ilen in [0usize, 1, 2, 31, 32, 33, 34, 40, 64, 127, 128, 129, 300] {
+        for first in [0x00u8, 0x01, 0x7f, 0x80, 0xff] {
+            for which in 0..2 {
+                let mut big = rng.bytes(ilen); if ilen > 0 { big[0] = first; }
+                let good = { let mut g = rng.bytes(32); g[0] = 0x11; g };
+                let (x, y) = if which == 0 { (big.clone(), good.clone()) } else { (good.clone(), big.clone()) };
+                for hlen in [32usize, 31, 33, 0] {
+                    if hlen != 32 && !(ilen == 32 && first == 0x01) { continue; }
+                    let body = [tlv(2, &x), tlv(2, &y), tlv(4, &rng.bytes(hlen)), tlv(4, &rng.bytes(5))].concat();
+                    let d = tlv(0x30, &body); let l = d.len(); let s = key.sk.clone();
+                    call(t, &mut n, "sm2.decrypt_asn1", "der-shape", l, move || e(s.decrypt_asn1(&d, false, Sm2Model::C1C3C2)));
+                }
+            }
+        }
     }
     // --- boundary keys: the constructor decides; whatever it accepts must sign, encrypt and decrypt in bounded time ---
     let nhex = hexb(N_HEX);
